@@ -53,10 +53,17 @@ func (h *hooked) Check(ent Entry, ce *CheckedEntry) *CheckedEntry {
 	// Let the wrapped Core decide whether to log this message or not. This
 	// also gives the downstream a chance to register itself directly with the
 	// CheckedEntry.
-	if downstream := h.Core.Check(ent, ce); downstream != nil {
+	before := 0
+	if ce != nil {
+		before = len(ce.cores)
+	}
+	downstream := h.Core.Check(ent, ce)
+	if downstream != nil && len(downstream.cores) > before {
+		// The wrapped Core accepted the entry (it registered itself), so
+		// the hooks must run when the entry is written.
 		return downstream.AddCore(ent, h)
 	}
-	return ce
+	return downstream
 }
 
 func (h *hooked) With(fields []Field) Core {
